@@ -18,11 +18,15 @@ RULE = ("one logical dataset (rank 1..3, extents 1..9, any number type) and one 
         "SDwritechunk/SDreadchunk interleaved with slab access; every configuration is compared with the array "
         "model (which arbitrates the differential); after the final reopen SDgetcomptype/SDgetcompress/SDgetdatasize/"
         "SDgetexternalinfo must report the requested layout. Thorough adds a bounded-exhaustive sweep over every chunk shape "
-        "for all extents <=4x4 and <=3x3x2. Non-trivial = a configuration with an edge (partial) chunk, or cache "
+        "for all extents <=4x4 and <=3x3x2. One case in four is a raster image (GR) under a chunked, compressed or chunked+compressed layout with "
+        "region and whole-chunk access, decided by C09's generator and H x W x C model. Non-trivial = a configuration with an edge (partial) chunk, or cache "
         "smaller than the chunks one slab touches, or chunk+coder, with >=2 writes hitting one chunk.")
 BUDGET = {"quick": {"shards": 8, "cases": 300}, "thorough": {"shards": 16, "cases": 2500}}
 MIN_NT = {"quick": 600, "thorough": 6000}
-ASSUMPTIONS = ["non-chunked compressed / n-bit datasets are written as whole arrays and not read in between "
+ASSUMPTIONS = ["which pixels a raster chunk covers is not asserted in generated cases: GR declares the chunked element "
+               "with the image's x extent as the slow dimension, so for non-square images a chunk is not a rectangle "
+               "of the image (known finding C04-gr-chunk-geometry, probed by a directed case)",
+               "non-chunked compressed / n-bit datasets are written as whole arrays and not read in between "
                "(coders only support append / full rewrite)", "szip unavailable", "fill mode on",
                "chunked n-bit: a never-written cell may read as the fill value or as its n-bit projection (partly "
                "written chunks pass their fill cells through the coder, untouched chunks do not)"]
@@ -120,8 +124,21 @@ def strategy_(draw, tier):
             "full_seed": draw(st.integers(0, 99))}
 
 
+@st.composite
+def raster_case(draw, tier):
+    """the raster clause: a raster image under a chunked / compressed / chunked+compressed layout (generator, model
+    and oracle of C09: every layout is compared with the H x W x C array model), plus whole-chunk access"""
+    from checks import c09
+    for _ in range(20):
+        c = draw(c09.strategy_(tier))
+        if c["storage"] != "plain":
+            return {"family": "raster", "c": c}
+    c["storage"], c["scfg"] = "chunk", {"shape": [max(1, c["W"] // 2), max(1, c["H"] // 2)], "cache": 1, "comp": None}
+    return {"family": "raster", "c": c}
+
+
 def strategy(tier):
-    return strategy_(tier)
+    return st.one_of(strategy_(tier), strategy_(tier), strategy_(tier), raster_case(tier))
 
 
 def project_values(vals, nt, nbit):
@@ -407,7 +424,45 @@ def run_config(case, cfg, d, labels, tag):
     labels.add("cfg_" + kind)
 
 
+def gr_chunk_geometry_probe():
+    """Directed probe of the known finding C04-gr-chunk-geometry: a 4x2 one-component image in chunks of 2x1 pixels;
+    chunk (0,0) must hold the pixels x=0,1 of row 0."""
+    W, H = 4, 2
+    with CaseDir() as d:
+        p = Prog()
+        p.call("i", "Hopen", "g.hdf", 7, 0, bind="f")
+        p.call("i", "GRstart", V("f"), bind="gr")
+        p.call("i", "GRcreate", V("gr"), "img", 1, 21, 0, i32s(W, H), bind="ri")
+        p.call("i", "hx_GRsetchunk", V("ri"), chunk_def([2, 1]), 1)
+        img = bytes(range(10, 10 + W * H))
+        p.call("i", "GRwriteimage", V("ri"), i32s(0, 0), None, i32s(W, H), img)
+        ln = p.call("i", "GRreadchunk", V("ri"), i32s(0, 0), Out(2))
+        l2 = p.call("i", "GRreadimage", V("ri"), i32s(0, 0), None, i32s(2, 1), Out(2))
+        p.call("i", "GRendaccess", V("ri"))
+        p.call("i", "GRend", V("gr"))
+        p.call("i", "Hclose", V("f"))
+        rr = run(p, cwd=d)
+        a, b = rr.res.get(ln), rr.res.get(l2)
+        if not rr.done or a is None or b is None or a.ret != 0 or b.ret != 0:
+            return dict(kind="crash" if rr.crashed else "GR chunk probe failed", detail=rr.sanitizer_summary())
+        if a.bufs[0] != b.bufs[0]:
+            return dict(kind="GRreadchunk(0,0) differs from GRreadimage of the chunk's documented region",
+                        image="4x2, chunk lengths [2,1]", chunk=list(a.bufs[0]), region=list(b.bufs[0]),
+                        known_keys=["C04-gr-chunk-geometry"])
+    return None
+
+
 def run_case(case):
+    if case.get("family") == "raster":
+        from checks import c09
+        r = c09.run_case(case["c"])
+        r.labels = {"raster_" + l for l in r.labels} | {"raster"}
+        if "raster_special_storage" in r.labels:
+            r.labels |= {"edge_chunk", "multi_write_chunk"}      # counts as non-trivial (see RULE)
+        return r
+    if case.get("family") == "gr_chunk_geometry":
+        f = gr_chunk_geometry_probe()
+        return CaseResult(labels={"raster", "gr_chunk_geometry"}, failure=f, sample=dict(case))
     labels = set()
     with CaseDir() as d:
         try:
@@ -425,6 +480,8 @@ def sample_of(case):
 
 
 def known_match(case, failure, entry):
+    if entry["key"] == "C04-gr-chunk-geometry":
+        return case.get("family") == "gr_chunk_geometry" and "C04-gr-chunk-geometry" in (failure.get("known_keys") or [])
     return False
 
 
